@@ -221,6 +221,8 @@ def _anchors(ctx):
     return m, fn, fs
 
 
+# The embedded example is self-contained (it calls nothing of the repository): the control tests the rule's own detection, so an edit of
+# PyrexTypes.spanning_type / widest_numeric_type is reported as a finding about the repository instead of breaking the control.
 _PC_BOOL = ("def safe_spanning_type(types, might_overflow, scope):\n"
             "    result_type = reduce(narrow_find, types)\n"
             "    if result_type.is_pyobject or result_type.is_float or result_type is PyrexTypes.c_bint_type:\n        return result_type\n"
@@ -228,16 +230,31 @@ _PC_BOOL = ("def safe_spanning_type(types, might_overflow, scope):\n"
             "def narrow_find(type1, type2):\n"
             "    if type1 is type2:\n        return type1\n"
             "    elif (type1 is PyrexTypes.c_bint_type and type2.is_int) or (type2 is PyrexTypes.c_bint_type and type1.is_int):\n        return py_object_type\n"
-            "    return PyrexTypes.spanning_type(type1, type2)\n")
+            "    elif type1.is_float:\n        return type1\n"
+            "    elif type2.is_float:\n        return type2\n"
+            "    return py_object_type\n")
 
 
 def _control_table(dom, module, only_bint):
+    """rows of the embedded variant for the kinds the controls look at: bint, C long, C double"""
     body = ast.parse(_PC_BOOL).body
     sst, nf = body[0], body[1]
     saved = dict(dom.overrides)
     dom.overrides[('TypeInference', 'narrow_find')] = RepoFn(module, nf)
+    kinds = {k.label: k for k in dom.kinds}
+    seqs = [('bint', 'C double'), ('C double', 'bint'), ('bint', 'C long'), ('C long', 'bint')] if only_bint else [('C long', 'C double'), ('C double', 'C long')]
+    out = []
     try:
-        return pair_table(dom, module, sst, only_bint=only_bint)
+        for labels in seqs:
+            seq = [kinds[l] for l in labels]
+            try:
+                res = dom.span(module, sst, [k.obj for k in seq])
+            except Unsupported as e:
+                raise AnalysisError('embedded example cannot be evaluated: %s' % e)
+            pyt, label = dom.pytype_of(res)
+            is_c = not (isinstance(res, Obj) and res.attrs.get('is_pyobject') is True)
+            out.append((tuple(labels), label, pyt, is_c, [k.pytype for k in seq]))
+        return out
     finally:
         dom.overrides.clear()
         dom.overrides.update(saved)
@@ -297,4 +314,654 @@ def rule_PYTYPE(ctx, floor=150):
                   'infer_types=False keeps its type' % (lost_py, got_py, len(pairs), pairs[0], res, lost_py, got_py))
     ctl = _control_table(dom, m, False)
     r.positive_control(any(is_c and set(labels) == {'C long', 'C double'} for labels, res, pyt, is_c, pyts in ctl), 'int merged with double becomes a C double')
+    return r
+
+
+# ====================================================================================================== fourth round
+# C40-ENV       MarkOverflowingArithmetic looks names up in `self.env`; the handler of every function node installs the function's own local scope for
+#               the visit of its children and puts the previous scope back afterwards (evaluated with the checker's evaluator on stub nodes).
+# C40-WIDTH     the C type chosen for two merged C numbers is at least as wide as either (rank of the result >= rank of the inputs of its kind; a
+#               Python float needs a C double).
+# C40-LITRANGE  the two places that decide "this integer literal fits a C long" (IntNode.find_suitable_type_for_value, Utils.long_literal) use the same
+#               interval, and it lies inside what every C long holds (32 bits).
+# C40-NONE      the list of assigned types handed to the spanning type contains a Python object type whenever None is assigned and no other Python
+#               object is (decision table of the nested helper over {None, C integer, Python int} assignments).
+# C40-CLOSURE   [pending finding] the overflow flag written by the marking pass reaches the entry whose scope is inferred (closure variables).
+# C40-FORWARD   [pending finding] expression nodes whose value *is* one of their operands (conditional expression, and/or) hand the overflow context on.
+from ..engine.pyindex import walk_no_nested, is_self_attr
+
+EN = 'Cython/Compiler/ExprNodes.py'
+
+
+def _u(n):
+    return ast.unparse(n)
+
+
+# ------------------------------------------------------------------------------------------------ C40-ENV
+def env_table(ix, vis):
+    """-> [(node class name, handler name, scopes seen by visitchildren, scope afterwards is the incoming one?, problem text or None)]"""
+    nodes = ix.mod('Nodes')
+    base = ix.cls('Nodes', 'FuncDefNode')
+    if base is None:
+        raise AnalysisError('Nodes.FuncDefNode vanished')
+    out = []
+    for cls in [base] + ix.subclasses(base):
+        h = ix.visitor_handler(vis, cls)
+        if h is None:
+            raise AnalysisError('no handler of %s for %s' % (vis.name, cls.name))
+        k, owner, fn = h
+        outer = Obj('enclosing scope', flag_default=False)
+        local = Obj('local scope of the function', flag_default=False)
+        declared_in = Obj('scope the function is declared in', flag_default=False)
+        stack = []
+        seen = []
+        selfobj = Obj(vis.name, cls=vis, flag_default=None, might_overflow=False, env=outer)
+        selfobj.attrs['env_stack'] = Obj('env_stack', append=lambda v: stack.append(v), pop=lambda: stack.pop())
+        selfobj.attrs['visitchildren'] = lambda n, *a, **kw: seen.append(selfobj.attrs['env'])
+        node = Obj(cls.name, flag_default=False, local_scope=local, entry=Obj('entry', flag_default=False, scope=declared_in), name='f')
+        ev = LoopEval(ix)
+        try:
+            ev.call(Method(RepoFn(owner.module, fn, owner), selfobj), [node])
+        except Unsupported as e:
+            raise AnalysisError('%s.%s cannot be evaluated on a %s: %s' % (owner.name, fn.name, cls.name, e))
+        except IndexError:
+            out.append((cls.name, fn.name, seen, False, 'pops an empty scope stack'))
+            continue
+        after = selfobj.attrs['env']
+        out.append((cls.name, fn.name, [getattr(x, 'label', repr(x)) for x in seen], after is outer, None if seen and all(x is local for x in seen) else
+                    ('visits the function body with self.env = %s' % ', '.join(getattr(x, 'label', repr(x)) for x in seen) if seen else 'does not visit the children')))
+    return out
+
+
+def rule_ENV(ctx, vis, floor=7):
+    r = Rule('C40-ENV', 'the handler MarkOverflowingArithmetic selects for a function node visits the function body with self.env = the function\'s local scope and restores '
+                        'the previous scope afterwards (names are marked on the entries inference reads)', floor)
+    ix = ctx.index
+    for cname, hname, seen, restored, problem in env_table(ix, vis):
+        key = '%s -> %s.%s' % (cname, vis.name, hname)
+        r.inst(key, sample='%s: children visited with %s, restored=%s' % (key, seen, restored))
+        if problem:
+            r.violate(key + ':scope', vis.module.rel, vis.node.lineno, '%s.%s %s instead of the local scope of the %s: self.env.lookup(name) does not find the local variables '
+                      '(or finds another variable of that name), their might_overflow flag is never set and they are inferred as wrapping C integers' % (vis.name, hname, problem, cname))
+        if not restored:
+            r.violate(key + ':restore', vis.module.rel, vis.node.lineno, '%s.%s leaves self.env changed after a %s: the names that follow the function are looked up in the wrong scope'
+                      % (vis.name, hname, cname))
+    pc = ast.parse("class V:\n    def visit_FuncDefNode(self, node):\n        self.env_stack.append(self.env)\n        self.visit_safe_node(node)\n        self.env = self.env_stack.pop()\n        return node\n"
+                   "    def visit_safe_node(self, node):\n        self.visitchildren(node)\n        return node\n").body[0]
+    outer = Obj('outer', flag_default=False)
+    seen, stack = [], []
+    so = Obj('V', flag_default=None, env=outer)
+    so.attrs['env_stack'] = Obj('env_stack', append=lambda v: stack.append(v), pop=lambda: stack.pop())
+    so.attrs['visitchildren'] = lambda n, *a, **kw: seen.append(so.attrs['env'])
+    fns = {f.name: f for f in pc.body}
+    so.attrs['visit_safe_node'] = Method(RepoFn(vis.module, fns['visit_safe_node']), so)
+    Eval(ix).call(Method(RepoFn(vis.module, fns['visit_FuncDefNode']), so), [Obj('DefNode', flag_default=False, local_scope=Obj('local', flag_default=False))])
+    r.positive_control(seen == [outer], 'handler that forgets to install node.local_scope')
+    return r
+
+
+# ------------------------------------------------------------------------------------------------ C40-WIDTH
+def rule_WIDTH(ctx, floor=60):
+    r = Rule('C40-WIDTH', 'the C number type safe_spanning_type chooses for two merged kinds is at least as wide as each input of its kind (integer rank, float rank; '
+                          'a Python float needs a C double): no value is truncated or loses precision by being stored in the inferred variable', floor)
+    m, fn, fs = _anchors(ctx)
+    dom = PairDomain(ctx)
+    by_label = {k.label: k for k in dom.kinds}
+    double_rank = dom.c_double.attrs['rank']
+
+    def check(rows):
+        bad = {}
+        n = 0
+        for labels, res, pyt, is_c, pyts in rows:
+            rk = by_label.get(res)
+            if not is_c or rk is None or 'rank' not in rk.obj.attrs or rk.obj.attrs.get('is_complex'):
+                continue
+            ro = rk.obj.attrs
+            res_float = bool(ro.get('is_float'))
+            n += 1
+            for l in labels:
+                k = by_label[l]
+                a = k.obj.attrs
+                need = None
+                if k.pytype == 'float' and res_float:
+                    # a Python float is a C double; wider C floats cannot arise from pure-Python values and need no more than that either
+                    need = min(a['rank'], double_rank) if a.get('is_float') else double_rank
+                elif a.get('is_int') and ro.get('is_int') and l != 'bint' and not a.get('is_unicode_char'):
+                    need = a['rank']
+                if need is not None and ro['rank'] < need:
+                    bad.setdefault((l, res), []).append(labels)
+        return n, bad
+    rows = pair_table(dom, m, fn, only_bint=False)
+    n, bad = check(rows)
+    for labels, res, pyt, is_c, pyts in rows:
+        rk = by_label.get(res)
+        if is_c and rk is not None and 'rank' in rk.obj.attrs and not rk.obj.attrs.get('is_complex'):
+            r.inst('safe_spanning_type:[%s]' % ', '.join(labels), sample='[%s] -> %s' % (', '.join(labels), res), nontrivial=labels[0] != labels[1])
+    for (l, res), seqs in sorted(bad.items()):
+        r.violate('safe_spanning_type:%s-narrowed-to-%s' % (l, res), TI, fs.lineno,
+                  'a variable assigned a %s is inferred as the narrower C type %s (%d assignment combinations, e.g. [%s]): the value is truncated / loses precision when stored, '
+                  'infer_types=False keeps it exact' % (l, res, len(seqs), ', '.join(seqs[0])))
+    # control: rows as the narrowing variant would produce them
+    fake = [(('C long long', 'C int'), 'C int', 'int', True, ['int', 'int']), (('C double', 'C double'), 'C float', 'float', True, ['float', 'float']),
+            (('C int', 'C long'), 'C long', 'int', True, ['int', 'int'])]
+    _, fb = check(fake)
+    r.positive_control(set(fb) == {('C long long', 'C int'), ('C double', 'C float')}, 'long long merged into int / double stored as float')
+    return r
+
+
+# ------------------------------------------------------------------------------------------------ C40-LITRANGE
+def _fold_int(e):
+    if isinstance(e, ast.Constant) and isinstance(e.value, int) and not isinstance(e.value, bool):
+        return e.value
+    if isinstance(e, ast.UnaryOp) and isinstance(e.op, ast.USub):
+        v = _fold_int(e.operand)
+        return None if v is None else -v
+    if isinstance(e, ast.BinOp):
+        a, b = _fold_int(e.left), _fold_int(e.right)
+        if a is None or b is None:
+            return None
+        if isinstance(e.op, ast.Pow) and 0 <= b <= 256:
+            return a ** b
+        if isinstance(e.op, ast.LShift) and 0 <= b <= 256:
+            return a << b
+        if isinstance(e.op, ast.Add):
+            return a + b
+        if isinstance(e.op, ast.Sub):
+            return a - b
+        if isinstance(e.op, ast.Mult):
+            return a * b
+    return None
+
+
+def literal_intervals(fn, is_value):
+    """closed integer intervals [lo, hi] a function tests its literal value against: chained comparisons `lo <= v < hi` with constant bounds"""
+    out = []
+    for n in walk_no_nested(fn):
+        if isinstance(n, ast.Compare) and len(n.ops) == 2 and is_value(n.comparators[0]):
+            lo, hi = _fold_int(n.left), _fold_int(n.comparators[1])
+            if lo is None or hi is None:
+                continue
+            o1, o2 = n.ops
+            if isinstance(o1, (ast.Lt, ast.LtE)) and isinstance(o2, (ast.Lt, ast.LtE)):
+                out.append((lo + (1 if isinstance(o1, ast.Lt) else 0), hi - (1 if isinstance(o2, ast.Lt) else 0), n))
+            elif isinstance(o1, (ast.Gt, ast.GtE)) and isinstance(o2, (ast.Gt, ast.GtE)):
+                out.append((hi + (1 if isinstance(o2, ast.Gt) else 0), lo - (1 if isinstance(o1, ast.Gt) else 0), n))
+        elif isinstance(n, ast.BoolOp) and len(n.values) == 2 and all(isinstance(v, ast.Compare) and len(v.ops) == 1 for v in n.values):
+            # `lo <= v and v < hi` (inside) or `v < lo or v >= hi` (outside): both delimit the same interval [lo, hi - 1]
+            inside = isinstance(n.op, ast.And)
+            flip = {ast.Lt: ast.GtE, ast.LtE: ast.Gt, ast.Gt: ast.LtE, ast.GtE: ast.Lt}
+            lo = hi = None
+            for v in n.values:
+                a, op, b = v.left, v.ops[0], v.comparators[0]
+                if not inside and type(op) in flip:
+                    op = flip[type(op)]()
+                if is_value(a) and _fold_int(b) is not None:
+                    c = _fold_int(b)
+                    if isinstance(op, ast.Lt):
+                        hi = c - 1
+                    elif isinstance(op, ast.LtE):
+                        hi = c
+                    elif isinstance(op, ast.Gt):
+                        lo = c + 1
+                    elif isinstance(op, ast.GtE):
+                        lo = c
+                elif is_value(b) and _fold_int(a) is not None:
+                    c = _fold_int(a)
+                    if isinstance(op, ast.Lt):
+                        lo = c + 1
+                    elif isinstance(op, ast.LtE):
+                        lo = c
+                    elif isinstance(op, ast.Gt):
+                        hi = c - 1
+                    elif isinstance(op, ast.GtE):
+                        hi = c
+            if lo is not None and hi is not None:
+                out.append((lo, hi, n))
+    return out
+
+
+C_LONG_MIN_WIDTH = (-2 ** 31, 2 ** 31 - 1)      # what a C long holds on every supported ABI (ISO C 5.2.4.2.1 guarantees 32 bits; two's complement)
+
+
+def rule_LITRANGE(ctx, floor=2):
+    r = Rule('C40-LITRANGE', 'the interval of integer literals treated as C-long-sized (IntNode.find_suitable_type_for_value, Utils.long_literal) lies within what every C long holds '
+                             '(32 bits) and is the same at both places', floor)
+    ix = ctx.index
+    intnode = ix.cls('ExprNodes', 'IntNode')
+    f1 = intnode.methods.get('find_suitable_type_for_value') if intnode else None
+    ut = ix.mod('Utils')
+    f2 = ut.functions.get('long_literal')
+    if f1 is None or f2 is None:
+        raise AnalysisError('IntNode.find_suitable_type_for_value / Utils.long_literal vanished')
+    i1 = literal_intervals(f1, lambda e: is_self_attr(e) and e.attr == 'constant_result')
+    params = [a.arg for a in f2.args.args]
+    i2 = literal_intervals(f2, lambda e: isinstance(e, ast.Name) and e.id in params)
+    if len(i1) != 1 or len(i2) != 1:
+        raise AnalysisError('the literal-size test was not found exactly once (IntNode: %d, Utils.long_literal: %d interval tests)' % (len(i1), len(i2)))
+    sites = [('ExprNodes.IntNode.find_suitable_type_for_value', EN, i1[0]), ('Utils.long_literal', 'Cython/Utils.py', i2[0])]
+    for name, rel, (lo, hi, node) in sites:
+        key = '%s:c-long-interval' % name
+        r.inst(key, sample='%s: [%d, %d]' % (key, lo, hi))
+        if lo < C_LONG_MIN_WIDTH[0] or hi > C_LONG_MIN_WIDTH[1]:
+            r.violate(key, rel, node.lineno, '%s treats integer literals in [%d, %d] as fitting a C long (`%s`), but a C long is only guaranteed 32 bits ([%d, %d]; 32 bits on Windows): '
+                      'a literal outside that range is typed / inferred as C long and truncated there, while infer_types=False keeps the Python int'
+                      % (name, lo, hi, _u(node), C_LONG_MIN_WIDTH[0], C_LONG_MIN_WIDTH[1]))
+    (lo1, hi1, n1), (lo2, hi2, n2) = i1[0], i2[0]
+    key = 'IntNode.find_suitable_type_for_value~Utils.long_literal:same-interval'
+    r.inst(key, sample='%s: [%d, %d] vs [%d, %d]' % (key, lo1, hi1, lo2, hi2))
+    if (lo1, hi1) != (lo2, hi2):
+        r.violate(key, EN, n1.lineno, 'IntNode.find_suitable_type_for_value types literals in [%d, %d] as C long, Utils.long_literal (overflow marking, constant folding) uses [%d, %d]: '
+                  'a literal between the two bounds is a C long for one and a big integer for the other' % (lo1, hi1, lo2, hi2))
+    pc = ast.parse("def f(self):\n    if -2**63 <= self.constant_result < 2**63:\n        return 1\n").body[0]
+    got = literal_intervals(pc, lambda e: is_self_attr(e) and e.attr == 'constant_result')
+    r.positive_control(len(got) == 1 and got[0][:2] == (-2 ** 63, 2 ** 63 - 1), '64-bit boundary')
+    return r
+
+
+# ------------------------------------------------------------------------------------------------ C40-NONE
+class LoopEval(Eval):
+    """Eval + `for x in <list>`, list.append, try/finally (no exception is modelled: body, else, finally in sequence), list comprehensions over lists, `x += [..]`:
+    enough for the small list-building helpers of the inferer and for save/restore handlers written with try/finally"""
+
+    def stmt(self, s, env, frame):
+        if isinstance(s, ast.For) and not s.orelse:
+            seq = self.expr(s.iter, env, frame)
+            if not isinstance(seq, (list, tuple)):
+                raise Unsupported('iteration over %r' % (seq,))
+            for v in seq:
+                self.assign(s.target, v, env, frame)
+                self.block(s.body, env, frame)
+            return
+        if isinstance(s, ast.Try):
+            try:
+                self.block(s.body, env, frame)
+                self.block(s.orelse, env, frame)
+            finally:
+                # a `return` inside the body travels as an exception of the evaluator: the finally block still runs first
+                self.block(s.finalbody, env, frame)
+            return
+        if isinstance(s, ast.AugAssign) and isinstance(s.op, ast.Add) and isinstance(s.target, ast.Name):
+            cur = self.expr(ast.Name(id=s.target.id, ctx=ast.Load()), env, frame)
+            add = self.expr(s.value, env, frame)
+            if isinstance(cur, list) and isinstance(add, list):
+                env[s.target.id] = cur + add
+                return
+            raise Unsupported('augmented assignment')
+        return Eval.stmt(self, s, env, frame)
+
+    def expr(self, e, env, frame):
+        if isinstance(e, ast.ListComp) and len(e.generators) == 1 and not e.generators[0].is_async:
+            g = e.generators[0]
+            seq = self.expr(g.iter, env, frame)
+            if not isinstance(seq, (list, tuple)):
+                raise Unsupported('comprehension over %r' % (seq,))
+            out = []
+            inner = dict(env)
+            for v in seq:
+                self.assign(g.target, v, inner, frame)
+                if all(self.truth(self.expr(c, inner, frame)) for c in g.ifs):
+                    out.append(self.expr(e.elt, inner, frame))
+            return out
+        return Eval.expr(self, e, env, frame)
+
+    def getattr(self, o, name, frame):
+        if isinstance(o, list) and name == 'append':
+            return o.append
+        return Eval.getattr(self, o, name, frame)
+
+
+def none_helper(infer_types_fn):
+    """the nested helper of infer_types() that builds the list of assigned types and looks at `<assignment>.rhs.is_none`"""
+    for n in ast.walk(infer_types_fn):
+        if isinstance(n, ast.FunctionDef) and n is not infer_types_fn and len(n.args.args) == 1 and \
+                any(isinstance(x, ast.Attribute) and x.attr == 'is_none' for x in ast.walk(n)) and any(isinstance(x, ast.Return) and x.value is not None for x in ast.walk(n)):
+            return n
+    return None
+
+
+def none_table(ctx, module, helper):
+    """-> [(scenario label, result has a Python object type?, labels of the result)]"""
+    dom = PairDomain(ctx)
+    c_long = [k for k in dom.kinds if k.label == 'C long'][0].obj
+    kinds = {'None': None, 'C long': c_long, 'Python int': dom.py_int}
+    out = []
+    import itertools
+    for combo in (('None',), ('None', 'C long'), ('C long', 'None'), ('None', 'C long', 'C long'), ('None', 'Python int'), ('Python int', 'None'), ('C long', 'None', 'Python int')):
+        assmts = []
+        for kname in combo:
+            if kname == 'None':
+                assmts.append(Obj('x = None', flag_default=False, rhs=Obj('NoneNode', flag_default=False, is_none=True), inferred_type=dom.py_object))
+            else:
+                assmts.append(Obj('x = <%s>' % kname, flag_default=False, rhs=Obj('rhs', flag_default=False, is_none=False), inferred_type=kinds[kname]))
+        entry = Obj('entry', flag_default=False, cf_assignments=assmts)
+        ev = LoopEval(dom.ix, overrides=dom.overrides)
+        try:
+            res = ev.call(RepoFn(module, helper), [entry])
+        except Unsupported as e:
+            raise AnalysisError('%s cannot be evaluated for assignments %s: %s' % (helper.name, combo, e))
+        if not isinstance(res, list):
+            raise AnalysisError('%s does not return a list' % helper.name)
+        has_py = any(isinstance(t, Obj) and t.attrs.get('is_pyobject') is True for t in res)
+        out.append((combo, has_py, [getattr(t, 'label', repr(t)) for t in res]))
+    return out
+
+
+_NONE_BAD = ("def inferred_types(entry):\n    types = []\n    for assmt in entry.cf_assignments:\n        if not assmt.rhs.is_none:\n            types.append(assmt.inferred_type)\n    return types\n")
+
+
+def rule_NONE(ctx, floor=6):
+    r = Rule('C40-NONE', 'the list of assigned types that infer_types() hands to the spanning type contains a Python object type whenever None is one of the assigned values '
+                         '(a C variable cannot hold None: the module would stop compiling or the None would be converted)', floor)
+    ix = ctx.index
+    m = ix.mod('TypeInference')
+    inferer = ix.cls('TypeInference', 'SimpleAssignmentTypeInferer')
+    fn = inferer.methods.get('infer_types') if inferer else None
+    if fn is None:
+        raise AnalysisError('SimpleAssignmentTypeInferer.infer_types vanished')
+    helper = none_helper(fn)
+    if helper is None:
+        raise AnalysisError('infer_types(): no nested helper looks at <assignment>.rhs.is_none')
+    for combo, has_py, labels in none_table(ctx, m, helper):
+        key = 'infer_types.%s:[%s]' % (helper.name, ', '.join(combo))
+        r.inst(key, sample='%s -> [%s]' % (key, ', '.join(labels)))
+        if not has_py:
+            r.violate(key, TI, helper.lineno, 'for a variable assigned %s the helper %s() returns the types [%s], none of which is a Python object: the variable is inferred as a C type '
+                      'that cannot hold None (compile error `Cannot convert None`, or a changed value), infer_types=False keeps an object'
+                      % (' and '.join(combo), helper.name, ', '.join(labels)))
+    bad = none_table(ctx, m, ast.parse(_NONE_BAD).body[0])
+    r.positive_control(any(not has_py for combo, has_py, _ in bad if 'C long' in combo), 'helper that drops None assignments')
+    return r
+
+
+# ------------------------------------------------------------------------------------------------ C40-CLOSURE  (pending finding)
+def closure_flag_findings(ix):
+    """-> [(method name, attribute, line, verdict 'ok'|'local-only', detail)] for the flags the marking pass stores on looked-up entries and inference reads"""
+    vis = ix.cls('TypeInference', 'MarkOverflowingArithmetic')
+    inferer = ix.cls('TypeInference', 'SimpleAssignmentTypeInferer')
+    entry_cls = ix.cls('Symtab', 'Entry')
+    inner = ix.cls('Symtab', 'InnerEntry')
+    if None in (vis, inferer, entry_cls, inner):
+        raise AnalysisError('MarkOverflowingArithmetic / SimpleAssignmentTypeInferer / Symtab.Entry / Symtab.InnerEntry vanished')
+    read = set()
+    for fn in inferer.methods.values():
+        for n in ast.walk(fn):
+            if isinstance(n, ast.Attribute) and isinstance(n.ctx, ast.Load) and isinstance(n.value, ast.Name) and n.value.id in ('entry', 'e'):
+                read.add(n.attr)
+    # attributes the closure entry shares by construction: properties of InnerEntry, or attributes only reachable through its __getattr__ (no class-level default on Entry)
+    shared = set()
+    for name, fn in inner.methods.items():
+        if any(isinstance(d, ast.Name) and d.id == 'property' for d in fn.decorator_list) or any(isinstance(d, ast.Attribute) and d.attr == 'setter' for d in fn.decorator_list):
+            shared.add(name)
+    out = []
+    for mname, fn in sorted(vis.methods.items()):
+        looked_up = set()
+        for n in walk_no_nested(fn):
+            if isinstance(n, ast.Assign) and len(n.targets) == 1 and isinstance(n.targets[0], ast.Name) and \
+                    any(isinstance(c, ast.Call) and isinstance(c.func, ast.Attribute) and c.func.attr == 'lookup' for c in ast.walk(n.value)):
+                looked_up.add(n.targets[0].id)
+        if not looked_up:
+            continue
+
+        def stores(stmts, loop_over=None):
+            for st in stmts:
+                if isinstance(st, (ast.For, ast.AsyncFor)) and isinstance(st.target, ast.Name) and isinstance(st.iter, ast.Call) and isinstance(st.iter.func, ast.Attribute) \
+                        and st.iter.func.attr == 'all_entries' and isinstance(st.iter.func.value, ast.Name) and st.iter.func.value.id in looked_up:
+                    yield from stores(st.body, st.target.id)
+                    continue
+                if isinstance(st, ast.Assign):
+                    for t in st.targets:
+                        if isinstance(t, ast.Attribute) and isinstance(t.value, ast.Name):
+                            if t.value.id in looked_up:
+                                yield t.attr, st.lineno, False
+                            elif loop_over and t.value.id == loop_over:
+                                yield t.attr, st.lineno, True
+                for fld in ('body', 'orelse', 'finalbody'):
+                    sub = getattr(st, fld, None)
+                    if isinstance(sub, list) and not isinstance(st, (ast.FunctionDef, ast.ClassDef)):
+                        yield from stores(sub, loop_over)
+        for attr, line, through_all in stores(fn.body):
+            if attr not in read:
+                continue
+            has_default = ix.find_class_attr(entry_cls, attr) is not None
+            if through_all or attr in shared or not has_default:
+                out.append((mname, attr, line, 'ok', 'stored on every entry of all_entries()' if through_all else 'shared by InnerEntry'))
+            else:
+                out.append((mname, attr, line, 'local-only', ''))
+    return out
+
+
+def rule_CLOSURE(ctx, floor=2):
+    """pending finding (FINDING_2): on the unmodified tree the flag of a closure variable is set on the InnerEntry only."""
+    r = Rule('C40-CLOSURE', 'a flag the marking pass stores on an entry found by scope lookup and that infer_types() reads (might_overflow) reaches the defining entry of a closure '
+                            'variable: stored through entry.all_entries() or shared by Symtab.InnerEntry', floor)
+    ix = ctx.index
+    res = closure_flag_findings(ix)
+    for mname, attr, line, verdict, detail in res:
+        key = 'MarkOverflowingArithmetic.%s:entry.%s' % (mname, attr)
+        r.inst(key, sample='%s: %s %s' % (key, verdict, detail))
+        if verdict != 'ok':
+            r.violate(key, TI, line, 'MarkOverflowingArithmetic.%s stores `%s` on the entry that <scope>.lookup() returns; inside a nested function that is a Symtab.InnerEntry, '
+                      'whose `%s` is a separate attribute (Entry has a class-level default, so InnerEntry.__getattr__ never forwards it): infer_types() of the enclosing scope reads '
+                      'the flag of the defining entry, which stays unset - a closure variable used in overflowing arithmetic inside the inner function is inferred as a C integer and wraps'
+                      % (mname, attr, attr))
+    return r
+
+
+# ------------------------------------------------------------------------------------------------ C40-FORWARD  (pending finding)
+def forwarding_classes(ix):
+    """ExprNode classes whose own infer_type() returns nothing but (the spanning type of) the inferred types of child nodes: {ClassInfo: forwarded child attributes}"""
+    expr = ix.cls('ExprNodes', 'ExprNode')
+    out = {}
+    for c in [expr] + ix.subclasses(expr):
+        fn = c.methods.get('infer_type')
+        if not fn:
+            continue
+        local = {}
+        for n in walk_no_nested(fn):
+            if isinstance(n, ast.Assign) and len(n.targets) == 1 and isinstance(n.targets[0], ast.Name):
+                local.setdefault(n.targets[0].id, []).append(n.value)
+
+        def forwards(e, depth=0):
+            if isinstance(e, ast.Call) and isinstance(e.func, ast.Attribute) and e.func.attr == 'infer_type' and is_self_attr(e.func.value):
+                return {e.func.value.attr}
+            if isinstance(e, ast.Call) and isinstance(e.func, ast.Attribute) and e.func.attr in ('spanning_type', 'independent_spanning_type'):
+                acc = set()
+                for a in e.args:
+                    f = forwards(a, depth)
+                    if f is None:
+                        return None
+                    acc |= f
+                return acc
+            if isinstance(e, ast.Name) and e.id in local and depth < 3 and len(local[e.id]) == 1:
+                return forwards(local[e.id][0], depth + 1)
+            return None
+        rets = [forwards(n.value) for n in walk_no_nested(fn) if isinstance(n, ast.Return) and n.value is not None]
+        # choice nodes only: the type is the spanning type of at least two operands, i.e. the value is one of several operands.  Single-operand wrappers
+        # (StarredUnpackingNode, CloneNode, ProxyNode, EvalWithTempExprNode) also forward a type but are not operands of arithmetic by construction / not decided here.
+        if rets and all(f is not None for f in rets) and len(set().union(*rets)) >= 2:
+            out[c] = sorted(set().union(*rets))
+    return out
+
+
+def constructed_before_marking(ix, vis, classes):
+    """the subset of `classes` that the parser or a pipeline stage listed before MarkOverflowingArithmetic constructs by name"""
+    pl = ix.mod('Pipeline')
+    cp = pl.functions.get('create_pipeline')
+    stages = None
+    for n in walk_no_nested(cp) if cp else ():
+        if isinstance(n, ast.Assign) and isinstance(n.targets[0], ast.Name) and n.targets[0].id == 'stages' and isinstance(n.value, ast.List):
+            stages = n.value
+    if stages is None:
+        raise AnalysisError('create_pipeline: `stages = [...]` not found')
+    before = []
+    for e in stages.elts:
+        nm = e.func.id if isinstance(e, ast.Call) and isinstance(e.func, ast.Name) else e.id if isinstance(e, ast.Name) else None
+        if nm == vis.name:
+            break
+        if nm:
+            before.append(nm)
+    else:
+        raise AnalysisError('%s is not a stage of create_pipeline' % vis.name)
+    names = {c.name: c for c in classes}
+    found = {}
+    sources = [('Parsing', None)] + [(c.module.short, c) for nm in before for c in ix.classes_by_name.get(nm, [])]
+    for modshort, cls in sources:
+        fns = []
+        if cls is None:
+            m = ix.mod(modshort)
+            fns = [(qn, fn) for qn, owner, fn in ix.functions_of(m)]
+        else:
+            for k in ix.mro(cls):
+                if k.module is cls.module:
+                    fns += [('%s.%s' % (k.name, n), f) for n, f in k.methods.items()]
+        for qn, fn in fns:
+            for n in walk_no_nested(fn):
+                if isinstance(n, ast.Call):
+                    nm = n.func.attr if isinstance(n.func, ast.Attribute) else n.func.id if isinstance(n.func, ast.Name) else None
+                    if nm in names:
+                        found.setdefault(names[nm], '%s.%s' % (modshort, qn))
+                    elif nm == 'binop_node' and 'BoolBinopNode' in names:
+                        found.setdefault(names['BoolBinopNode'], '%s.%s (binop_node)' % (modshort, qn))
+    return found
+
+
+def rule_FORWARD(ctx, vis, floor=2):
+    """pending finding (FINDING_3): CondExprNode / BoolBinopNode are visited as "safe" on the unmodified tree."""
+    from ..props.C40 import classify
+    r = Rule('C40-FORWARD', 'an expression node whose value is one of its operands (its infer_type() is the spanning type of child types: conditional expression, and/or, '
+                            'temp wrappers) hands the overflow context on to those operands: MarkOverflowingArithmetic visits it as neutral, not as safe', floor)
+    ix = ctx.index
+    fw = forwarding_classes(ix)
+    early = constructed_before_marking(ix, vis, list(fw))
+    if len(early) < 2:
+        raise AnalysisError('only %d operand-forwarding expression classes are constructed before the marking pass' % len(early))
+    for cls, where in sorted(early.items(), key=lambda kv: kv[0].name):
+        kind, hname, after_bad = classify(ix, vis, cls, Obj(cls.name, flag_default=False, operator='and'))
+        key = '%s (forwards %s)' % (cls.name, '/'.join(fw[cls]))
+        r.inst(key, sample='%s -> %s: %s (constructed in %s)' % (key, hname, kind, where))
+        if kind not in ('neutral', 'dangerous'):
+            r.violate(key, vis.module.rel, vis.node.lineno, 'operands of %s (handler %s.%s) are visited as "%s": the node forwards the value of its operand %s, so in `(%s) * big` the '
+                      'name inside takes part in the multiplication, but it is not marked might_overflow, is inferred as a C integer and the product wraps'
+                      % (cls.name, vis.name, hname, kind, '/'.join(fw[cls]), 'x if c else y' if 'Cond' in cls.name else 'x or y'))
+    return r
+
+
+# ------------------------------------------------------------------------------------------------ C40-DEL
+def rule_DEL(ctx, floor=13):
+    r = Rule('C40-DEL', 'a `del x` contributes a Python object type to the inference of x whatever the C kind of the deleted value (FlowControl.NameDeletion.infer_type): '
+                        'a variable that is deleted is never inferred as a C number, which cannot be unbound', floor)
+    ix = ctx.index
+    cls = ix.cls('FlowControl', 'NameDeletion')
+    fn = cls.methods.get('infer_type') if cls else None
+    if fn is None:
+        raise AnalysisError('FlowControl.NameDeletion.infer_type vanished')
+    dom = PairDomain(ctx)
+
+    def table(owner, fnode):
+        out = []
+        for k in dom.kinds:
+            scope = Obj('scope', flag_default=False)
+            selfobj = Obj('NameDeletion', cls=owner, flag_default=False, entry=Obj('entry', flag_default=False, scope=scope),
+                          rhs=Obj('rhs', flag_default=False, infer_type=lambda s, k=k: k.obj), inferred_type=None, rhs_scope=None)
+            ev = PairEval(ix, overrides=dom.overrides)
+            try:
+                res = ev.call(Method(RepoFn(owner.module, fnode, owner), selfobj), [])
+            except Unsupported as e:
+                raise AnalysisError('NameDeletion.infer_type cannot be evaluated for %s: %s' % (k.label, e))
+            out.append((k.label, isinstance(res, Obj) and res.attrs.get('is_pyobject') is True, getattr(res, 'label', repr(res))))
+        return out
+    for label, is_py, res in table(cls, fn):
+        key = 'NameDeletion.infer_type:%s' % label
+        r.inst(key, sample='%s -> %s' % (key, res))
+        if not is_py:
+            r.violate(key, cls.module.rel, fn.lineno, 'NameDeletion.infer_type answers %s for a deleted variable that held a %s: the variable is inferred as a C type, `del x` of a C variable '
+                      'is rejected ("Deletion of non-Python, non-C++ object") although the module compiles with infer_types=False' % (res, label))
+    pc = ast.parse("def infer_type(self):\n    inferred_type = self.rhs.infer_type(self.entry.scope)\n    self.inferred_type = inferred_type\n    return inferred_type\n").body[0]
+    r.positive_control(any(not is_py for _, is_py, _ in table(cls, pc)), 'variant that returns the C type of the deleted value')
+    return r
+
+
+# ------------------------------------------------------------------------------------------------ C40-RANGEVAR
+class NodeEval(LoopEval):
+    """LoopEval + isinstance(<stub>, <node class>) by the class graph, slices of lists, len()"""
+
+    def call(self, f, args, kwargs=None):
+        if f is isinstance and len(args) == 2 and isinstance(args[0], Obj) and args[0].cls is not None:
+            want = args[1] if isinstance(args[1], tuple) else (args[1],)
+            names = {'%s.%s' % (k.module.short, k.name) for k in self.ix.mro(args[0].cls)}
+            if all(isinstance(w, Sym) for w in want):
+                return any(w.name in names for w in want)
+        return LoopEval.call(self, f, args, kwargs)
+
+    def expr(self, e, env, frame):
+        if isinstance(e, ast.Subscript) and isinstance(e.slice, ast.Slice):
+            base = self.expr(e.value, env, frame)
+            if isinstance(base, (list, tuple)) and e.slice.step is None:
+                lo = self.expr(e.slice.lower, env, frame) if e.slice.lower is not None else None
+                hi = self.expr(e.slice.upper, env, frame) if e.slice.upper is not None else None
+                if all(x is None or isinstance(x, int) for x in (lo, hi)):
+                    return base[lo:hi]
+            raise Unsupported('slice')
+        return LoopEval.expr(self, e, env, frame)
+
+
+def range_marks(ix, owner, fn, n_args):
+    """right-hand sides FlowControl.mark_forloop_target marks for `for i in range(<n_args arguments>)`: list of labels"""
+    en = ix.mod('ExprNodes')
+    call_cls = ix.cls('ExprNodes', 'SimpleCallNode')
+    marks = []
+    args = [Obj('arg%d' % i, flag_default=False) for i in range(n_args)]
+    ev = NodeEval(ix)
+    ev.overrides[('ExprNodes', 'binop_node')] = lambda pos, op, a, b, **kw: Obj('(%s %s %s)' % (a.label, op, b.label), flag_default=False)
+    range_type = ev.global_name(ix.mod('Builtin'), 'range_type')
+    entry = Obj('entry of range', flag_default=False, is_type=True, is_builtin=True, type=range_type)
+    scope = Obj('scope', flag_default=False, lookup=lambda name: entry if name in ('range', 'xrange') else None)
+    function = Obj('NameNode range', flag_default=False, is_name=True, name='range')
+    seq = Obj('SimpleCallNode', cls=call_cls, flag_default=False, function=function, args=args)
+    seq.attrs['self'] = None
+    target = Obj('target', flag_default=False)
+    node = Obj('ForInStatNode', flag_default=False, target=target, pos=Obj('pos'), item=Obj('item', flag_default=False),
+               iterator=Obj('IteratorNode', flag_default=False, sequence=seq, expr_scope=None))
+    selfobj = Obj('ControlFlowAnalysis', cls=owner, flag_default=False, env=scope)
+    selfobj.attrs['mark_assignment'] = lambda lhs, rhs=None, **kw: marks.append(getattr(rhs, 'label', repr(rhs)))
+    selfobj.attrs['constant_folder'] = lambda x: x
+    selfobj.attrs['current_env'] = lambda: scope
+    selfobj.attrs['visitchildren'] = lambda *a, **k: None
+    try:
+        ev.call(Method(RepoFn(owner.module, fn, owner), selfobj), [node])
+    except Unsupported as e:
+        raise AnalysisError('%s.%s cannot be evaluated for range() with %d argument(s): %s' % (owner.name, fn.name, n_args, e))
+    return marks
+
+
+def rule_RANGEVAR(ctx, floor=3):
+    r = Rule('C40-RANGEVAR', 'for `for i in range(...)` the loop variable is given, as assigned values, every one of the first two arguments and start+step when a step is present '
+                             '(FlowControl.mark_forloop_target evaluated on range() calls with 1, 2 and 3 arguments): its inferred type spans start and bound', floor)
+    ix = ctx.index
+    cls = ix.cls('FlowControl', 'ControlFlowAnalysis')
+    fn = cls.methods.get('mark_forloop_target') if cls else None
+    if fn is None:
+        raise AnalysisError('FlowControl.ControlFlowAnalysis.mark_forloop_target vanished')
+
+    def problems(owner, fnode):
+        out = []
+        for n in (1, 2, 3):
+            marks = range_marks(ix, owner, fnode, n)
+            want = ['arg%d' % i for i in range(min(n, 2))]
+            missing = [w for w in want if w not in marks]
+            if n == 3 and not any('arg0' in m and 'arg2' in m and m.startswith('(') for m in marks):
+                missing.append('arg0 + arg2')
+            out.append((n, marks, missing))
+        return out
+    for n, marks, missing in problems(cls, fn):
+        key = 'mark_forloop_target:range/%d' % n
+        r.inst(key, sample='%s: marks %s' % (key, marks))
+        if missing:
+            r.violate(key, cls.module.rel, fn.lineno, 'for `for i in range(%s)` mark_forloop_target records %s as values of the loop variable but not %s: the variable is inferred from the '
+                      'remaining values only (e.g. a C long from a literal start) although it runs up to a bound of another type - conversion error or wrap-around where infer_types=False iterates over Python ints'
+                      % (', '.join('arg%d' % i for i in range(n)), marks, ', '.join(missing)))
+    pc = ast.parse("class C:\n    def mark_forloop_target(self, node):\n        sequence = node.iterator.sequence\n        target = node.target\n        if isinstance(sequence, ExprNodes.SimpleCallNode):\n"
+                   "            function = sequence.function\n            if sequence.self is None and function.is_name and function.name in ('range', 'xrange'):\n"
+                   "                for arg in sequence.args[:1]:\n                    self.mark_assignment(target, arg)\n").body[0].body[0]
+    r.positive_control(any(missing for n, marks, missing in problems(cls, pc)), 'variant that marks the start value only')
     return r
